@@ -326,7 +326,7 @@ impl<T: Value, N: Unsigned, U: UpdateMap<T>> Encode for Vector<T, N, U> {
 
     fn ssz_fixed_len() -> usize {
         if <Self as ssz::Encode>::is_ssz_fixed_len() {
-            <T as Encode>::ssz_fixed_len() * N::to_usize()
+            <T as Encode>::ssz_fixed_len().saturating_mul(N::to_usize())
         } else {
             BYTES_PER_LENGTH_OFFSET
         }
@@ -334,7 +334,7 @@ impl<T: Value, N: Unsigned, U: UpdateMap<T>> Encode for Vector<T, N, U> {
 
     fn ssz_bytes_len(&self) -> usize {
         if <T as Encode>::is_ssz_fixed_len() {
-            <T as Encode>::ssz_fixed_len() * self.len()
+            <T as Encode>::ssz_fixed_len().saturating_mul(self.len())
         } else {
             let mut len = self.iter().map(|item| item.ssz_bytes_len()).sum();
             len += BYTES_PER_LENGTH_OFFSET * self.len();
@@ -368,7 +368,7 @@ impl<T: Value, N: Unsigned, U: UpdateMap<T>> Decode for Vector<T, N, U> {
 
     fn ssz_fixed_len() -> usize {
         if <Self as ssz::Decode>::is_ssz_fixed_len() {
-            <T as Decode>::ssz_fixed_len() * N::to_usize()
+            <T as Decode>::ssz_fixed_len().saturating_mul(N::to_usize())
         } else {
             ssz::BYTES_PER_LENGTH_OFFSET
         }
